@@ -1197,3 +1197,27 @@ Proof.
     pose proof (Hlow s Hf). pose proof (Hmin s' Hf'). lia.
   - intros ->. split; [exact Hex|exact Hlow].
 Qed.
+
+(* ---------------------------------------------------------------------------------------------- *)
+(* 13. remarks                                                                                      *)
+
+(* the 6 * C(m,3) transitivity constraints are implied by totality + position constraints + bounds *)
+Theorem trans_redundant s m : structural s m -> trans_sem s m.
+Proof.
+  intros (Hb & Hr & Ht & Hp) x y z Hx Hy Hz Hxy Hyz Hxz.
+  destruct (pos_order_core s m Hb Hr Ht Hp x y Hx Hy Hxy) as [A1 A0].
+  destruct (pos_order_core s m Hb Hr Ht Hp y z Hy Hz Hyz) as [B1 B0].
+  destruct (pos_order_core s m Hb Hr Ht Hp x z Hx Hz Hxz) as [C1 C0].
+  destruct (Hb x y Hx Hy) as [E1|E1], (Hb y z Hy Hz) as [E2|E2], (Hb x z Hx Hz) as [E3|E3];
+    rewrite E1, E2, E3 in *; lia.
+Qed.
+
+(* the verdict of is_single_peaked_ILP, for both admissible data types, given a solver that finds a feasible
+   assignment iff one exists *)
+Corollary ilp_sp_verdict d alts p : d = DTsoc \/ d = DTtoc -> NoDup alts -> Forall (complete_on alts) p ->
+  ((exists s, feasible (sp_ilp alts p) s) <-> is_single_peaked_ILP_model d alts p = Ok true).
+Proof.
+  intros Hd Hnd Hc. rewrite (ilp_sp_feasible_iff alts p Hnd Hc), <- (spw_decide_correct alts p Hnd Hc).
+  unfold is_single_peaked_ILP_model. destruct Hd as [-> | ->]; simpl;
+    (split; [intros ->; reflexivity|intros E; now injection E]).
+Qed.
